@@ -744,36 +744,53 @@ func targetedTickerFollowsClock(c *core.Ctx, variant int) {
 
 		return
 	}
+	// the ticker collector reads the client's Clock on every tick: control points passed are the measure of ticks
+	ticks := func(n int64) bool {
+		base := r.w.CPCount()
+
+		return waitFor(func() bool { return r.w.CPCount() >= base+n })
+	}
 	if variant == 1 {
 		r.w.SetNow(-int64(40 * 365 * 24 * time.Hour)) // the clock is decades behind the wall clock ...
 	}
 	if variant == 2 {
-		// the clock once showed a much later time (a wrong wall clock that was then corrected): time "now" is what the
-		// clock says now
+		// the clock once showed a much later time (a wrong wall clock that was then corrected): "now" is what the clock
+		// says now
 		r.w.SetNow(int64(5 * time.Hour))
-		b0 := atomic.LoadInt32(&r.agent.Collects)
-		waitFor(func() bool { return atomic.LoadInt32(&r.agent.Collects) > b0+5 })
+		ticks(20)
 		r.w.SetNow(int64(time.Second))
-		b1 := atomic.LoadInt32(&r.agent.Collects)
-		waitFor(func() bool { return atomic.LoadInt32(&r.agent.Collects) > b1+5 })
+		ticks(20)
 	}
 	t := r.newTx("Start", seqTID(0), 24)
 	_ = r.start(t)
-	base := atomic.LoadInt32(&r.agent.Collects)
+	if !ticks(60) {
+		c.Inconclusive(1)
+		_ = r.close()
+
+		return
+	}
+	if inv := t.invocations(); len(inv) != 0 || r.conn.NWrites() != 1 {
+		c.Violate("termination", "timeout-before-deadline:ticker-collector-with-clock", map[string]interface{}{"options": o.String(), "variant": variant,
+			"problem": fmt.Sprintf("the client's clock has not reached the deadline (it stands still), yet after 60 collector ticks: handler invocations %v, %d writes", classesOf(inv), r.conn.NWrites()), "ledger": r.describe()})
+		_ = r.close()
+
+		return
+	}
 	r.w.SetNow(r.w.VNow() + int64(time.Hour)) // ... or ahead of it; either way it has now passed the deadline
-	ok := waitFor(func() bool { return len(t.invocations()) > 0 || atomic.LoadInt32(&r.agent.Collects) > base+200 })
-	ticks := atomic.LoadInt32(&r.agent.Collects) - base
+	base := r.w.CPCount()
+	ok := waitFor(func() bool { return len(t.invocations()) > 0 || r.w.CPCount() > base+600 })
+	passed := r.w.CPCount() - base
 	inv := t.invocations()
 	off := atomic.LoadInt32(&r.agent.OffClock)
 	_ = r.close()
 	switch {
 	case off > 0:
 		ex, _ := r.agent.OffClockExample.Load().(string)
-		c.Violate("collect-off-clock", "collect-off-clock", map[string]interface{}{"options": o.String(),
+		c.Violate("collect-off-clock", "collect-off-clock", map[string]interface{}{"options": o.String(), "variant": variant,
 			"problem": fmt.Sprintf("%d Collect calls of the ticker collector carried a time the client's Clock never showed (first: %s)", off, ex)})
-	case len(inv) == 0 && ticks > 200:
-		c.Violate("handler-never-invoked", "never-invoked:ticker-collector-with-clock", map[string]interface{}{"options": o.String(),
-			"problem": fmt.Sprintf("the client's clock is an hour past the deadline and the ticker collector has collected %d times since, no timeout was delivered", ticks)})
+	case len(inv) == 0 && passed > 600:
+		c.Violate("handler-never-invoked", "never-invoked:ticker-collector-with-clock", map[string]interface{}{"options": o.String(), "variant": variant,
+			"problem": fmt.Sprintf("the client's clock is an hour past the deadline and the ticker collector has read it some %d times since, no timeout was delivered", passed)})
 	case !ok || len(inv) == 0:
 		c.Inconclusive(1)
 	default:
@@ -1044,7 +1061,9 @@ func targetedClosedClientCollected(c *core.Ctx, variant int) {
 		w := sim.NewWorld()
 		conn := sim.NewConn(w)
 		conns[k] = conn
-		opts := []stun.ClientOption{stun.WithClock(sim.Clock{W: w}), stun.WithCollector(&sim.Collector{W: w})}
+		// the library's own agent and collector (an injected collector that keeps the callback it was given would keep the
+		// client reachable from itself, and an object on a cycle through its finalizer is never finalized)
+		opts := []stun.ClientOption{stun.WithClock(sim.Clock{W: w})}
 		if variant&1 == 1 {
 			opts = append(opts, stun.WithNoRetransmit)
 		}
